@@ -191,3 +191,8 @@ package req
 //@
 //@ func (*context).RecvMsg$1
 //@   before call:Unlock#1 assert at("call:Lock#1", c.reqID) == id && id != 0 ==> c.reqID == 0 && !has(c.s.ctxByID, id)
+// ---- generated Info contracts (tools/gen_info_contracts.py) ----
+//@ func (*socket).Info
+//@   ensures result.Self == 48 && result.Peer == 49 && result.SelfName == "req" && result.PeerName == "rep"
+//@
+// ---- end generated Info contracts ----
